@@ -25,7 +25,7 @@ enforce: spif_mbuff_splice
 backend: sat
 objbits: 6
 flags: --slice-formula
-timeout: 150
+timeout: 500
 */
 /*@unit
 name: mbuff.splice.negcnt
@@ -35,7 +35,7 @@ enforce: spif_mbuff_splice
 backend: sat
 objbits: 6
 flags: --slice-formula
-timeout: 150
+timeout: 500
 */
 /*@unit
 name: mbuff.splice.refuse
@@ -45,7 +45,7 @@ enforce: spif_mbuff_splice
 backend: sat
 objbits: 6
 flags: --slice-formula
-timeout: 150
+timeout: 500
 */
 /*@unit
 name: mbuff.splice_from_ptr.accept
@@ -55,7 +55,7 @@ enforce: spif_mbuff_splice_from_ptr
 backend: sat
 objbits: 6
 flags: --slice-formula
-timeout: 150
+timeout: 500
 */
 /*@unit
 name: mbuff.splice_from_ptr.negcnt
@@ -65,7 +65,7 @@ enforce: spif_mbuff_splice_from_ptr
 backend: sat
 objbits: 6
 flags: --slice-formula
-timeout: 150
+timeout: 500
 */
 /*@unit
 name: mbuff.splice_from_ptr.refuse
@@ -75,7 +75,7 @@ enforce: spif_mbuff_splice_from_ptr
 backend: sat
 objbits: 6
 flags: --slice-formula
-timeout: 150
+timeout: 500
 */
 /*@unit
 name: mbuff.splice.accept.view
